@@ -231,14 +231,20 @@ func Nitro(wdt float64, subd int, zeit int, g *GlobalVarsMain, l *NitroSharedVar
 	//! ++++++++++++++++++++++ Adaptation tillage to automatic sowing/harvest (if harvest later) +++++++++++++++++++++++
 	if subd == 1 {
 		if zeit == g.EINTE[g.NTIL.Index+1] {
-			if g.SAAT[g.AKF.Index] > 0 && g.ERNTE[g.AKF.Index] == 0 {
+			// only a tillage that falls into the standing crop waits for the automatic harvest
+			if g.SAAT[g.AKF.Index] > 0 && zeit >= g.SAAT[g.AKF.Index] && g.ERNTE[g.AKF.Index] == 0 {
 				g.EINTE[g.NTIL.Index+1] = g.EINTE[g.NTIL.Index+1] + 2
 			}
 		}
 	}
 	if g.SAAT[g.AKF.Index] > 0 && g.EINTE[g.NTIL.Index+1] > g.SAAT[g.AKF.Index] && g.EINTE[g.NTIL.Index+1] <= g.ERNTE[g.AKF.Index] {
-		//invalid tillage date
-		return finishedCycle, fmt.Errorf("tillage date %s before harvest %s at %s", g.Kalender(g.EINTE[g.NTIL.Index+1]), g.Kalender(g.ERNTE[g.AKF.Index]+1), g.PKT)
+		if g.AUTOHAR && g.EINTE[g.NTIL.Index+1] >= zeit {
+			// the tillage was waiting for the automatic harvest, which is now fixed: right after it
+			g.EINTE[g.NTIL.Index+1] = g.ERNTE[g.AKF.Index] + 1
+		} else {
+			//invalid tillage date
+			return finishedCycle, fmt.Errorf("tillage date %s before harvest %s at %s", g.Kalender(g.EINTE[g.NTIL.Index+1]), g.Kalender(g.ERNTE[g.AKF.Index]+1), g.PKT)
+		}
 	}
 
 	// ----------------------------------------------------------------------------------------------------------------
